@@ -18,8 +18,9 @@ func TestMain(m *testing.M) { vk.Main(m) }
 // Raw is reduced modulo the well-typed choices available at that point by the generator;
 // scenarios store the resolved steps, so a replay needs no generator.
 type Step struct {
-	Op string `json:"op"` // from join liftf wrapf unit yield
-	C  int    `json:"c,omitempty"`
+	Op  string `json:"op"` // from join liftf wrapf unit yield
+	C   int    `json:"c,omitempty"`
+	Org int    `json:"org,omitempty"` // origin of the lifted value handed to the step (table.go: 0 L1/L2, 1 converted, 2 zero value)
 }
 
 type Scenario struct {
@@ -107,9 +108,9 @@ func model(sc Scenario, types []int) *mnode {
 	stack := []*mnode{root}
 	top := func() *mnode { return stack[len(stack)-1] }
 	add := func(n *mnode) { top().kids = append(top().kids, n) }
-	add(&mnode{kind: "from", a: typeNames[sc.Src], tag: 0})
+	add(&mnode{kind: "from", a: typeNames[sc.Src], tag: payloadTag(0, sc.Steps[0].Org)})
 	for i, st := range sc.Steps[1:] {
-		tag := i + 1
+		tag := payloadTag(i+1, st.Org)
 		cur := types[i] // type before this step
 		switch st.Op {
 		case "join":
@@ -151,6 +152,13 @@ type visitor struct {
 	events []event
 	failAt int // -1: never
 	err    error
+	seqs   []seenSeq // sequence nodes handed to the enter callbacks (for re-visits)
+}
+
+type seenSeq struct {
+	node  duct.AstSeq
+	depth int
+	at    int // index of the enter event
 }
 
 func (v *visitor) rec(e event) error {
@@ -172,12 +180,16 @@ func seqEvent(enter bool, kind string, depth int, n duct.AstSeq) event {
 	return event{Enter: enter, Kind: kind, Depth: depth, Root: n.Root, Deferred: n.Deferred, Kids: len(n.Seq)}
 }
 func (v *visitor) OnEnterMorphism(d int, n duct.AstSeq) error {
+	v.seqs = append(v.seqs, seenSeq{n, d, len(v.events)})
 	return v.rec(seqEvent(true, "morphism", d, n))
 }
 func (v *visitor) OnLeaveMorphism(d int, n duct.AstSeq) error {
 	return v.rec(seqEvent(false, "morphism", d, n))
 }
-func (v *visitor) OnEnterSeq(d int, n duct.AstSeq) error { return v.rec(seqEvent(true, "seq", d, n)) }
+func (v *visitor) OnEnterSeq(d int, n duct.AstSeq) error {
+	v.seqs = append(v.seqs, seenSeq{n, d, len(v.events)})
+	return v.rec(seqEvent(true, "seq", d, n))
+}
 func (v *visitor) OnLeaveSeq(d int, n duct.AstSeq) error { return v.rec(seqEvent(false, "seq", d, n)) }
 func (v *visitor) OnEnterMap(d int, n duct.AstMap) error {
 	return v.rec(event{Enter: true, Kind: "map", Depth: d, A: n.TypeA, B: n.TypeB, Tag: tagOf(n.F)})
@@ -200,9 +212,9 @@ func (v *visitor) OnLeaveYield(d int, n duct.AstYield) error {
 
 // build applies the real combinators; every intermediate morphism is used exactly once.
 func build(sc Scenario, types []int) any {
-	m := fromTab[sc.Src](0)
+	m := fromTab[sc.Src](1000 * sc.Steps[0].Org)
 	for i, st := range sc.Steps[1:] {
-		tag := i + 1
+		tag := i + 1 + 1000*st.Org
 		cur := types[i]
 		switch st.Op {
 		case "join":
@@ -271,6 +283,35 @@ func Run(sc Scenario) (msg string) {
 	if len(stack) != 0 {
 		return "enter without leave"
 	}
+	// a node handed to a callback can be visited on its own, from any starting depth (Ast.Apply(depth, v) is the public
+	// entry point): the sub-visit reports the same callbacks as the corresponding stretch of the full visit, shifted
+	// to the starting depth - the root stays the one root morphism, a nested context stays a nested context
+	for _, ss := range rec.seqs {
+		end := ss.at
+		for open := 0; ; end++ {
+			if rec.events[end].Enter {
+				open++
+			} else {
+				open--
+			}
+			if open == 0 {
+				break
+			}
+		}
+		for _, d0 := range []int{0, ss.depth + 3} {
+			sub := &visitor{failAt: -1}
+			if err := ss.node.Apply(d0, sub); err != nil {
+				return fmt.Sprintf("sub-visit of the sequence entered at callback %d returned %v", ss.at, err)
+			}
+			wantSub := append([]event{}, want[ss.at:end+1]...)
+			for i := range wantSub {
+				wantSub[i].Depth += d0 - ss.depth
+			}
+			if !reflect.DeepEqual(sub.events, wantSub) {
+				return fmt.Sprintf("sub-visit of the sequence node entered at callback %d (depth %d in the full visit), started at depth %d, differs from that stretch of the full visit shifted to depth %d:\n%s", ss.at, ss.depth, d0, d0, diff(sub.events, wantSub))
+			}
+		}
+	}
 	// the same morphism value visited again gives the same trace (Apply does not consume the AST)
 	rec2 := &visitor{failAt: -1}
 	if err := apply(build(sc, types), rec2); err != nil || !reflect.DeepEqual(rec2.events, want) {
@@ -307,14 +348,14 @@ type stepper struct {
 }
 
 func newStepper(sc Scenario, types []int) *stepper {
-	return &stepper{sc: sc, types: types, m: fromTab[sc.Src](0)}
+	return &stepper{sc: sc, types: types, m: fromTab[sc.Src](1000 * sc.Steps[0].Org)}
 }
 
 func (s *stepper) done() bool { return s.i >= len(s.sc.Steps)-1 }
 
 func (s *stepper) step() {
 	st := s.sc.Steps[1+s.i]
-	tag, cur := s.i+1, s.types[s.i]
+	tag, cur := s.i+1+1000*st.Org, s.types[s.i]
 	switch st.Op {
 	case "join":
 		s.m = joinTab[key3{s.sc.Src, cur, st.C}](tag, s.m)
@@ -416,6 +457,9 @@ func gen(t *rapid.T) Scenario {
 
 func gen1(t *rapid.T) Scenario {
 	sc := Scenario{Src: rapid.SampledFrom(sourceTypes).Draw(t, "src"), Steps: []Step{{Op: "from"}}}
+	if rapid.IntRange(0, 9).Draw(t, "oddSource") == 0 {
+		sc.Steps[0].Org = rapid.IntRange(1, 2).Draw(t, "org")
+	}
 	n := rapid.IntRange(0, 14).Draw(t, "len")
 	cur := sc.Src
 	for i := 0; i < n; i++ {
@@ -437,6 +481,9 @@ func gen1(t *rapid.T) Scenario {
 				c += rapid.IntRange(1, 2).Draw(t, "lvl") // prefer slice targets so contexts can be opened next
 			}
 			st = Step{Op: "join", C: c}
+		}
+		if st.Op != "unit" && st.Op != "wrapf" && rapid.IntRange(0, 5).Draw(t, "odd") == 0 {
+			st.Org = rapid.IntRange(1, 2).Draw(t, "org")
 		}
 		sc.Steps = append(sc.Steps, st)
 		switch st.Op {
